@@ -310,6 +310,7 @@ class Engine:
         self.loop_specs = {}  # (qualname, ordinal) -> LoopSpec
         # functions in which every loop must have a LoopSpec
         self.spec_required = set()
+        self.comp_handlers = {}  # type of the iterable -> handler
         self.call_hooks = {}
         self.sources = {}
         self.steps = 0
@@ -1121,6 +1122,15 @@ class Engine:
     def eval_comp(self, e, env, mod, clsctx):
         func = env.func if env is not None else None
         cenv = Env(env, func)
+        first_it = _MISSING
+        if self.comp_handlers:
+            # comprehension over an abstract sequence (contracts/worklist)
+            first_it = self.eval(e.generators[0].iter, env, mod, clsctx)
+            h = self.comp_handlers.get(type(force(first_it)))
+            if h is not None:
+                r = h(self, force(first_it), e, env, mod, clsctx)
+                if r is not NotImplemented:
+                    return r
 
         def gen(i):
             if i == len(e.generators):
@@ -1131,7 +1141,10 @@ class Engine:
                     yield self.eval(e.elt, cenv, mod, clsctx)
                 return
             g = e.generators[i]
-            it = self.eval(g.iter, cenv if i else env, mod, clsctx)
+            if i == 0 and first_it is not _MISSING:
+                it = first_it
+            else:
+                it = self.eval(g.iter, cenv if i else env, mod, clsctx)
             for x in self.iterate(it):
                 self.assign(g.target, x, cenv, mod, clsctx)
                 ok = True
